@@ -795,3 +795,48 @@ Fixpoint run_clean2 (s : rstate2) (ops : list gop2) : bool :=
   | [] => true
   | o :: rest => negb (kf_step2 s o) && run_clean2 (rapply2 s o) rest
   end.
+
+(* ==================================================================================================== *)
+(* The liquidity metadata of a gauge and the eligibility it defines.                                     *)
+(* x/rewards/keeper/gauge.go NewGauge (stores the PoolId / IsMasterPool / ChildPoolIds the message       *)
+(* carried), x/liquidity/keeper/rewards.go GetFarmingRewardsData (212-232: the child pools of a master   *)
+(* gauge), GetAggregatedChildPoolContributions (117-162).                                                *)
+(* ==================================================================================================== *)
+
+(* what MsgCreateGauge carried: the gauge is created with exactly this *)
+Record gmeta := mkMeta { m_pool : Z; m_master : bool; m_child : list Z }.
+
+(* the child pools GetFarmingRewardsData uses: the listed ones other than the gauge's own pool; an EMPTY
+   list means "every other enabled pool of the app" ([others]: recorded environment) *)
+Definition child_ids (m : gmeta) (others : list Z) : list Z :=
+  match m_child m with
+  | [] => others
+  | l => filter (fun p => negb (p =? m_pool m)) l
+  end.
+
+(* one active farmer of the gauge's pool as observed: (account, farmed value in the gauge's pool, farmed
+   values in the app's other pools as (pool id, value)) *)
+Definition fobs := (Z * Z * list (Z * Z))%type.
+Definition fo_acct (o : fobs) : Z := fst (fst o).
+Definition fo_value (o : fobs) : Z := snd (fst o).
+Definition fo_others (o : fobs) : list (Z * Z) := snd o.
+
+(* GetAggregatedChildPoolContributions: the pool ids are visited in order (a pool listed twice counts twice) *)
+Definition child_value (ids : list Z) (vals : list (Z * Z)) : Z :=
+  zsum (map (fun pid => zsum (map snd (filter (fun pv => fst pv =? pid) vals))) ids).
+
+(* the environment of one gauge computed from ITS metadata and the per-pool observations: a master gauge with
+   at least one child pool pays by min(master value, value in the child pools); otherwise by the master value *)
+Definition farm_env_of (m : gmeta) (others : list Z) (obs : list fobs) : farm_env :=
+  let fs := map (fun o => (fo_acct o, fo_value o)) obs in
+  if m_master m then
+    match child_ids m others with
+    | [] => FarmPlain fs
+    | ids => FarmMaster fs (map (fun o => child_value ids (fo_others o)) obs)
+    end
+  else FarmPlain fs.
+
+(* the stored record against the message: same pool, same flag, same child list *)
+Definition meta_eqb (a b : gmeta) : bool :=
+  (m_pool a =? m_pool b) && Bool.eqb (m_master a) (m_master b) &&
+  (zlen (m_child a) =? zlen (m_child b)) && forallb (fun pq => fst pq =? snd pq) (combine (m_child a) (m_child b)).
